@@ -6,6 +6,15 @@ open Model
 open Mlib
 
 let nat_of_int = Mnat.nat_of_int
+
+(* every signature is reported (at most 60 times each): the frequent known shapes must not use up the global report limit *)
+let sig_count : (string, int) Hashtbl.t = Hashtbl.create 16
+let specviol id signature detail =
+  let c = 1 + (try Hashtbl.find sig_count signature with Not_found -> 0) in
+  Hashtbl.replace sig_count signature c;
+  incr Mlib.nviol;
+  stat ("viol:" ^ signature);
+  if c <= 60 then Printf.printf "SPECVIOL\t%s\t%s\t%s\n" id signature detail
 let n = n_of_int
 let split c s = String.split_on_char c s
 let starts p s = String.length s >= String.length p && String.sub s 0 (String.length p) = p
